@@ -19,7 +19,7 @@ RULE = ("vec.* cases: (a) for every length 0..8 (rationals) one history containi
         "(d) the adversarial family of the recorded finding f64-square-range: f64 vectors with entries whose square leaves the normal range, "
         "spacings whose b-a overflows (norms, norm laws, linspace, powspace; lengths 1..8); "
         "distinct = distinct executor line; non-trivial = non-empty vector or an operation that must panic")
-TRUSTED = ["Coq 8.16.1 kernel + vm_compute (primitive floats: bit-exact IEEE binary64)", "Rust executor /verif/harness (kinds vec.*; Rat = i128 rationals)",
+TRUSTED = ["Coq 8.16.1 kernel + vm_compute (primitive floats: bit-exact IEEE binary64)", "Flocq 4 (IEEE754.PrimFloat, BinarySingleNaN) and Coq's FloatAxioms for the two *_exact_float theorems", "Rust executor /verif/harness (kinds vec.*; Rat = i128 rationals)",
            "python driver: generators, plain-list reference model, mpmath norm reference, stream comparators",
            "hand-written Gallina model coq/Model/Vector.v + VecOps.v tied to src/vector/*.rs by differential execution (Rat vs Qc exact; f64/Complex vs primitive floats)",
            "libm pow enters the float model as the table of the calls made (python math.pow = the same libm); compared by tolerance 1e-12",
@@ -39,7 +39,8 @@ MANIFEST = dict(
           "vec_run_refines_Qc holds outright), elementwise_spec (+ - unary- scalar forms abs entry by entry, size guards), vdiv_spec, "
           "sum_slice_spec / product_slice_spec / sum_spec (value and exact guard conditions), dot bilinear/symmetric over a ring, linspace_ends "
           "over a field and strict monotonicity over R, and over R: non-negativity, homogeneity, triangle inequality of "
-          "norm_1/norm_inf/norm_2 (Cauchy-Schwarz) and norm_inf <= norm_2 <= norm_1. Tie: the same definitions run by vm_compute "
+          "norm_1/norm_inf/norm_2 (Cauchy-Schwarz) and norm_inf <= norm_2 <= norm_1; over IEEE binary64 (Flocq): dot_exact_float and "
+          "sum_slice_exact_float (integer-valued f64 data below 2^53: the float instance returns exactly the integer value of the definition). Tie: the same definitions run by vm_compute "
           "against the implementation (Rat vs Qc exactly; f64/Complex bit-compared, libm-dependent norm_p/powspace by tolerance) "
           "on every length 0..64, every index range of the slice reductions for lengths <= 8 and random histories; a plain python "
           "list model and mpmath norms search for failing inputs."),
